@@ -24,6 +24,25 @@ pub open spec fn total_fees(f: PoolFee, gross: nat) -> nat {
         + extra_fees_sum(f.extra_fees@, gross, f.extra_fees@.len())
 }
 
+/// sum of the first n extra fee shares (18-decimal atomics)
+pub open spec fn extra_shares_sum(fees: Seq<Fee>, n: nat) -> nat
+    decreases n
+{
+    if n == 0 || n > fees.len() { 0 } else { extra_shares_sum(fees, (n - 1) as nat) + fees[n - 1].share@ }
+}
+/// C12: every share a forward swap deducts from the gross output: swap + protocol + burn + all extra fees
+pub open spec fn total_share(f: PoolFee) -> nat {
+    f.swap_fee.share@ + f.protocol_fee.share@ + f.burn_fee.share@ + extra_shares_sum(f.extra_fees@, f.extra_fees@.len())
+}
+/// C12: gross amount that must come out of the pool so that `ask` is left after ALL fees: floor(ask * floor(1e36/(1e18 - fees)) / 1e18)
+pub open spec fn reverse_gross_spec(ask: nat, fees: nat) -> nat {
+    let inv = (DEC * DEC) / ((DEC - fees) as nat);
+    ((((ask * DEC) / 1) * inv) / DEC) / DEC
+}
+/// C12: reverse quote on a constant-product pool: x*y / (y - gross - 1) - x
+pub open spec fn reverse_offer_spec(x: nat, y: nat, ask: nat, fees: nat) -> nat {
+    (((1 * (x * y)) / ((y - reverse_gross_spec(ask, fees) - 1) as nat)) - x) as nat
+}
 /// index of a denom in the pool's asset list (first match), or -1
 pub open spec fn asset_index(p: PoolInfo, denom: Seq<char>) -> int
 {
